@@ -367,6 +367,61 @@ class CallMixin:
 
     # ------------------------------------------------------------ spec helper functions (inlined, pure)
     def call_spec_func(self, f, args, kwargs, st, fr, node):
+        from . import speclang
+        if f.qualname in speclang.OPAQUE and not kwargs:
+            body = self._call_spec_func(f, args, kwargs, st, fr, node)
+            if isinstance(body, z3.ExprRef) and kind_of(body) in ("real", "int", "bool"):
+                leaves = []
+
+                def flat(v):
+                    if isinstance(v, z3.ExprRef):
+                        leaves.append(v)
+                    elif isinstance(v, (int, float)) and not isinstance(v, bool):
+                        leaves.append(to_z3(v, "real"))
+                    elif isinstance(v, bool):
+                        leaves.append(z3.BoolVal(v))
+                    elif isinstance(v, Ref):
+                        h = st.get(v)
+                        if isinstance(h, HObj):
+                            for k in sorted(h.fields):
+                                flat(h.fields[k])
+                        elif isinstance(h, HArr):
+                            n, t = self.arr_term(st, v)
+                            leaves.append(to_z3(n, "int"))
+                            leaves.append(t)
+                        else:
+                            raise SpecError("opaque spec function %s: unsupported argument" % f.qualname)
+                    elif v is None:
+                        pass
+                    else:
+                        raise SpecError("opaque spec function %s: unsupported argument %r" % (f.qualname, v))
+                for a in args:
+                    flat(a)
+                from .nplib import ufunc
+                F = ufunc("SPEC_" + f.qualname, *([x.sort() for x in leaves] + [body.sort()]))
+                app = F(*leaves)
+                eq = app == body
+                # inside a quantified clause the arguments mention bound variables: state the definition for all of them
+                bound, seen = [], set()
+
+                def walk(t):
+                    if t.get_id() in seen:
+                        return
+                    seen.add(t.get_id())
+                    if z3.is_const(t) and t.decl().kind() == z3.Z3_OP_UNINTERPRETED and "!q" in t.decl().name() and t.sort() == z3.IntSort():
+                        bound.append(t)
+                    for ch in t.children():
+                        walk(ch)
+                walk(app)
+                if bound:
+                    eq = z3.ForAll(bound, eq, patterns=[app])
+                if not any(eq.eq(g) for g in st.pc):
+                    st.pc.append(eq)
+                return app
+            return body
+        return self._call_spec_func(f, args, kwargs, st, fr, node)
+
+    def _call_spec_func(self, f, args, kwargs, st, fr, node):
         fr2 = self.sub_frame(fr)
         fr2.spec = True
         env = {}
